@@ -34,7 +34,7 @@ ASSUMPTIONS = ['operand values already have the dtype of the series in the Coq m
                'after element writes, and exception classes on paths the property does not constrain',
                'pandas Index.get_loc on a duplicate-free index meets locate_spec (checked on every recorded answer)',
                'a label None cannot be used as a slice bound (Python reads it as an open end)']
-EXHAUSTIVE = {'quick': True, 'thorough': True}
+EXHAUSTIVE = {'quick': False, 'thorough': False}          # see RULE: which sub-space is enumerated completely and what is sampled
 CASE_TIMEOUT = 30
 
 PER_Y0 = 30          # Period('2000', 'Y').ordinal
@@ -434,8 +434,8 @@ def correspond(cases, obs, tag, tier):
         if o.get('timeout'):
             bad.append(i)
             continue
-        if c['op']['kind'] == 'typed':
-            continue                  # oracle-only: the model does not cast
+        if c['op']['kind'] == 'typed' or _has_nan(c['span']):
+            continue                  # oracle-only: the model does not cast / has no NaN label
         if not o['span_ok'] or pd_spec_broken(c, o):
             bad.append(i)
             continue
@@ -505,6 +505,108 @@ def _partial_string(case, j):
     return j is not None and case['span']['type'] in ('period', 'datetime') and j[0] in ('s', 'ts') and _pos([lc.canon(x) for x in lc.span_labels(case['span'])], j) is None
 
 
+SIG_DT64 = 'C10|ndarray span (datetime64[ns] elements / NaN label)|present-label-KeyError'
+SIG_DUP_OPEN = 'C10|open-slice|repeated-label-span'
+SIG_DUP_ARR = 'C10|ndarray span|repeated-label-KeyError'
+
+
+def _has_nan(spec):
+    return any(j == ['f', 'nan'] for j in lc.span_labels(spec))
+
+
+def oracle_dup(case, obs, labs, fails, bad):
+    """Spans with a repeated label.  The text still fixes: open slice ends are the ends of the span; a label that occurs ONCE sits at
+    its position; a label that is not in the span raises KeyError.  Excluded: a closed bound / a lookup of a label that occurs twice on
+    list / tuple spans (its position is not defined); on a NumPy-array span such a lookup raises KeyError although the label is there
+    (kept finding)."""
+    sp, op, out = case['span'], case['op'], obs['out']
+    n = len(labs)
+    data = [10 + i for i in range(n)]
+    arr = sp['type'] == 'nparr'
+    cnt = lambda j: labs.count(lc.canon(j))
+    pos = lambda j: labs.index(lc.canon(j))
+    kind = op['kind']
+
+    def finding(sig, what):
+        fails.append({'sig': sig, 'what': what})
+    exp_after = data
+    if kind in ('get', 'set', 'locate'):
+        k = op.get('key') or {'label': op['label']}
+        if 'label' in k:
+            j = k['label']
+            c = cnt(j)
+            if c == 0:
+                if out != ['raise', 'KeyError']:
+                    bad(kind + '(label)', 'absent-label-aliases' if out[0] == 'ret' else 'absent-label-' + out[1], 'label %s is not in the span: expected KeyError, got %s' % (j, out))
+            elif c == 1:
+                p = pos(j)
+                if kind == 'get' and out != ['ret', 'scalar', data[p]]:
+                    bad('get(label)', 'wrong-element', 'obj[X, %s] must be the element at position %d; got %s' % (j, p, out))
+                if kind == 'locate' and (out[0] != 'ret' or out[2][:2] != [0, p]):
+                    bad('locate', 'wrong-position', 'label %s is at position %d; got %s' % (j, p, out))
+                if kind == 'set' and 'scalar' in op['w']:
+                    exp_after = list(data)
+                    exp_after[p] = op['w']['scalar']
+                    if out != ['ret', 'none']:
+                        bad('set(label)', 'write-rejected', 'obj[X, %s] = v raised %s' % (j, out))
+                elif kind == 'set':
+                    exp_after = None
+            else:
+                if arr and out == ['raise', 'KeyError']:
+                    finding(SIG_DUP_ARR, 'label %s occurs in the NumPy-array span but obj[X, label] raises KeyError' % (j,))
+                exp_after = None if out[0] == 'ret' else data
+        else:
+            a, b, st = k['slice']
+            if (st is not None and st <= 0) or any(x is not None and cnt(x) > 1 for x in (a, b)) or ('seq' in op.get('w', {})):
+                return                 # outside the property / position of a repeated label not defined / sequence operands: silent
+            if any(x is not None and cnt(x) == 0 for x in (a, b)):
+                if out != ['raise', 'KeyError']:
+                    bad(kind + '(slice)', 'absent-label-aliases' if out[0] == 'ret' else 'absent-label-' + out[1], 'slice %s has a bound that is not in the span: expected KeyError, got %s' % (k['slice'], out))
+            else:
+                ps = list(range(0 if a is None else pos(a), (n - 1 if b is None else pos(b)) + 1, st or 1))
+                open_end = a is None or b is None
+                if kind == 'get':
+                    if out != ['ret', 'arr', [data[p] for p in ps]]:
+                        if open_end:
+                            finding(SIG_DUP_OPEN, 'obj[X, %s] must run to the END of the span (positions %s); got %s' % (k['slice'], ps, out))
+                        else:
+                            bad('get(slice)', 'wrong-positions', 'obj[X, %s] must address positions %s; got %s' % (k['slice'], ps, out))
+                else:
+                    exp = list(data)
+                    for p in ps:
+                        exp[p] = op['w']['scalar']
+                    if out != ['ret', 'none'] or obs['after'] != exp:
+                        if open_end:
+                            finding(SIG_DUP_OPEN, 'obj[X, %s] = v must write positions %s; X is %s (%s)' % (k['slice'], ps, obs['after'], out))
+                        else:
+                            bad('set(slice)', 'wrong-periods-written', 'obj[X, %s] = v must write positions %s; X is %s (%s)' % (k['slice'], ps, obs['after'], out))
+                    exp_after = None
+    elif kind == 'setpos':
+        if -n <= op['i'] < n:
+            exp_after = list(data)
+            exp_after[op['i']] = op['v']
+    elif kind == 'setwhole':
+        w = op['w']
+        exp_after = [w['scalar']] * n if 'scalar' in w else (list(w['seq']) if len(w['seq']) == n else data)
+    else:
+        exp_after = None
+    if out[0] == 'raise':
+        exp_after = data
+    if exp_after is not None and obs['after'] != exp_after:
+        bad(kind, 'wrong-periods-written' if out[0] == 'ret' else 'changed-on-error', 'X after the call is %s, expected %s' % (obs['after'], exp_after))
+    # read-backs: unique labels give the stored element; a repeated label on a NumPy-array span raises KeyError (finding); the full
+    # open slice is the whole stored series
+    ea = obs['after']
+    for i, r in enumerate(obs['bylabel']):
+        if labs.count(labs[i]) == 1:
+            if r != ['ret', 'scalar', ea[i]]:
+                bad(kind, 'readback-label', 'obj[X, label %d] gives %s, stored %s' % (i, r, ea[i]))
+        elif arr and r == ['raise', 'KeyError']:
+            finding(SIG_DUP_ARR, 'label at position %d occurs in the NumPy-array span but obj[X, label] raises KeyError' % i)
+    if n > 0 and obs['fullslice'] != ['ret', 'arr', ea]:
+        finding(SIG_DUP_OPEN, 'obj[X, :] must be the whole series %s; got %s' % (ea, obs['fullslice']))
+
+
 def oracle(case, obs):
     fails = []
     sp = case['span']
@@ -520,8 +622,25 @@ def oracle(case, obs):
         return fails
     labs = [lc.canon(j) for j in lc.span_labels(sp)]
     n = len(labs)
-    if len(set(labs)) != n or ('none',) in labs:
-        return fails                       # the property speaks about duplicate-free spans; None cannot bound a slice
+    if ('none',) in labs:
+        return fails                       # None cannot bound a slice (Python reads it as an open end): excluded
+    if len(set(labs)) != n:
+        oracle_dup(case, obs, labs, fails, bad)
+        seen = set()
+        return [f for f in fails if not (f['sig'] in seen or seen.add(f['sig']))]
+    if t == 'nparr_dt64' and sp['unit'] == 'ns' and n > 0:
+        # KEPT FINDING: no period of a datetime64[ns] array span can be addressed by its own label (present label -> KeyError, open
+        # slices -> KeyError, the int of the nanoseconds aliases the period).  While that is so the span is unusable as a whole and
+        # nothing else is judged on it; once the own labels work, the ordinary statement below applies again.
+        if any(r == ['raise', 'KeyError'] for r in obs['bylabel']) or obs['fullslice'] == ['raise', 'KeyError']:
+            return [{'sig': SIG_DT64, 'what': 'datetime64[ns] array span: obj[X, label] over the span\'s own labels gives %s, obj[X, :] gives %s' % (obs['bylabel'][:2], obs['fullslice'])}]
+    nan_pos = [i for i, l in enumerate(labs) if l == ('nan',)]
+    if nan_pos:
+        # the NaN label of a float array span: same defect (NaN != NaN in the element-wise comparison); everything else is judged
+        hit = [i for i in nan_pos if obs['bylabel'][i] == ['raise', 'KeyError']]
+        if hit:
+            fails.append({'sig': SIG_DT64, 'what': 'float array span: the NaN label at position %d of the span raises KeyError' % hit[0]})
+            obs = dict(obs, bylabel=[(['ret', 'scalar', obs['after'][i]] if i in hit else r) for i, r in enumerate(obs['bylabel'])])
     data = [10 + i for i in range(n)]
     op = case['op']
     kind = op['kind']
@@ -763,6 +882,12 @@ def span_specs(nmax, monthly=False):
             specs.append({'type': 'list', 'labels': [['i', 3 * i] for i in range(n)][::-1]})
         if monthly and n <= 5:
             specs.append({'type': 'period', 'freq': 'M', 'start': PER_M0, 'n': n})
+    # NumPy datetime64 array spans: [D] (object cast = datetime.date: works) and [ns] (object cast = int: KEPT FINDING); a float
+    # array span with a NaN label (oracle-only)
+    for n in range(0, 4):
+        specs.append({'type': 'nparr_dt64', 'unit': 'ns', 'start': TS_D0, 'step': 86400 * 10 ** 9, 'n': n})
+        specs.append({'type': 'nparr_dt64', 'unit': 'D', 'start': 10955, 'step': 1, 'n': n})
+    specs.append({'type': 'nparr', 'labels': [['f', 1.0], ['f', 'nan'], ['f', 3.0]]})
     # falsy labels (0, '', 0.0) first / in the middle / last: a label is never an omitted bound
     specs.append({'type': 'list', 'labels': [['s', ''], ['i', 0], ['s', 'a']]})
     specs.append({'type': 'range', 'start': -1, 'step': 1, 'n': 3})
@@ -782,6 +907,9 @@ def absent_labels(spec):
         out = [['per', spec['freq'], spec['start'] - 1], ['i', 2000], ['per', 'Q' if spec['freq'] != 'Q' else 'Y', 31]]
     elif t == 'datetime':
         out = [['ts', spec['start'] + 3600 * 10 ** 9], ['i', 3]]
+    elif t == 'nparr_dt64':
+        # one step before the start; the INTEGER of a present element (for [ns] it finds the period: the object cast holds ints)
+        out = [['d64', spec['unit'], spec['start'] - spec['step']], ['i', spec['start'] + (spec['step'] if spec['n'] > 1 else 0)], ['s', 'zz']]
     elif kinds <= {'i'}:
         out = [['i', 4], ['s', 'zz'], ['f', 5.5], ['i', -1] if ['i', -1] not in labs else ['i', -77]]
         if t == 'range':
@@ -897,7 +1025,9 @@ def _text(j):
 
 
 def dup_specs():
-    return [{'type': 'list', 'labels': [['i', 1], ['i', 2], ['i', 1], ['i', 3]]},
+    return [{'type': 'list', 'labels': [['s', 'a'], ['s', 'b'], ['s', 'a']]}, {'type': 'nparr', 'labels': [['i', 1], ['i', 2], ['i', 1]]},
+            {'type': 'tuple', 'labels': [['s', 'a'], ['s', 'b'], ['s', 'b']]},
+            {'type': 'list', 'labels': [['i', 1], ['i', 2], ['i', 1], ['i', 3]]},
             {'type': 'list', 'labels': [['s', 'a'], ['i', 1], ['b', True], ['f', 1.0]]},
             {'type': 'nparr', 'labels': [['i', 1], ['i', 2], ['i', 1], ['i', 3]]},
             {'type': 'nparr', 'labels': [['s', 'a'], ['s', 'a']]},
